@@ -460,6 +460,10 @@ class Folder:
 
     def ev(self, t):
         k = t[0]
+        if k in ('load0', 'load') and isinstance(t[1], tuple) and t[1] and t[1][0] == 'loc':
+            pv = promoted_pointee(t[1])
+            if pv is not None and (pv[0] == 'agg' or (pv[0] == 'const' and isinstance(pv[1], int))):
+                return self.ev(pv)
         if k == 'const':
             if isinstance(t[1], int):
                 return t[1]
@@ -560,6 +564,8 @@ class Folder:
                 return self.ev(t[2][0])
             if t[1].startswith('core::option::Option::None'):
                 return None
+            if not t[2] and t[1] in VARIANT_DISCR:
+                return VARIANT_DISCR[t[1]]       # a field-less enum value folds to its discriminant
             raise Unfoldable('aggregate ' + t[1])
         if k == 'discr':
             v = t[1]
@@ -620,6 +626,20 @@ class Folder:
 
     def call(self, t):
         fn = t[2]
+        if fn in ('core::cmp::PartialEq::eq', 'core::cmp::PartialEq::ne') and len(t[3]) == 2:
+            # comparison of two values by reference (derived PartialEq of a field-less enum / scalar)
+            vals = []
+            for a in t[3]:
+                a0 = a
+                while a0[0] in ('cast', 'conv', 'idcall'):
+                    a0 = a0[3] if a0[0] == 'cast' else a0[2]
+                if a0[0] == 'refto':
+                    vals.append(self.ev(a0[1]))
+                elif a0[0] == 'const' and isinstance(a0[1], str) and a0[1] in PROMOTED:
+                    vals.append(self.ev(PROMOTED[a0[1]]))
+                else:
+                    vals.append(self.leaf(a))
+            return int((vals[0] == vals[1]) == fn.endswith('::eq'))
         m = NUM_FN.match(fn)
         if m:
             ty, meth = m.group(1), m.group(2)
